@@ -175,6 +175,25 @@ def build_coq_one(props_file):
     return res
 
 
+def run_coqchk(props_files):
+    """Thorough tier: re-checks the compiled Props files and everything they depend on with the
+    independent checker and reports the axioms of the whole closure. Returns (ok, detail)."""
+    if isinstance(props_files, str):
+        props_files = [props_files]
+    mods = " ".join("TH.Props." + p for p in props_files)
+    with Lock("coq"):
+        rc, out = sh("ulimit -v 16000000; timeout 2400 coqchk -o -silent -Q theories TH %s 2>&1" % mods, cwd=COQ, timeout=2500)
+    if rc != 0:
+        return False, "coqchk failed: " + out[-600:]
+    m = re.search(r"\* Axioms:\s*(.*?)\n\s*\n\s*\*", out, re.S)
+    axioms = m.group(1).strip() if m else "?"
+    bad = [k for k in ("type-in-type", "unsafe (co)fixpoints", "positivity is assumed")
+           if not re.search(re.escape(k) + r":\s*<none>", out)]
+    if axioms != "<none>" or bad:
+        return False, "coqchk: axioms = %s; %s" % (axioms[:300], ", ".join(bad))
+    return True, "coqchk -o: Axioms: <none>; no type-in-type, unsafe fixpoints or assumed positivity"
+
+
 def build_driver():
     """(Re)builds the extracted model and the OCaml driver if stale."""
     ensure_coq_makefile()
